@@ -15,7 +15,7 @@
     regression examples. *)
 From Coq Require Import List ZArith Bool.
 From V Require Import Gen.Params Lib.Hex SendStream.Model SendStream.ProofsBase SendStream.ProofsInv
-  SendStream.ProofsCov SendStream.ProofsOut SendStream.ProofsFin SendStream.ProofsCnt SendStream.Theorems StreamE2E.Model StreamE2E.Compose
+  SendStream.ProofsCov SendStream.ProofsOut SendStream.ProofsFin SendStream.ProofsCnt SendStream.ProofsDone SendStream.Theorems StreamE2E.Model StreamE2E.Compose
   StreamE2E.DgModel StreamE2E.DgProofs StreamE2E.PackModel StreamE2E.PackProofs.
 Import ListNotations.
 Open Scope Z_scope.
@@ -75,6 +75,24 @@ Theorem C01_sender_no_panic :
   panicked s = false /\ numOut s = cnt_stream s + cnt_reset s /\ 0 <= numOut s.
 Proof. exact sender_no_panic. Qed.
 Print Assumptions C01_sender_no_panic.
+
+(** Completion exactly once: over every history, the number of onStreamCompleted calls is 1 if the
+    stream is completed and 0 otherwise (never twice); and in every state that is not shut down,
+    "nothing in flight, queued or buffered, and the FIN was sent or the reset is known to the
+    application" implies that completion HAS been reported. (Refuted before the repair of write():
+    regression example C01_completion_witness_repaired.) *)
+Theorem C01_completion_exactly_once :
+  forall (sid0 : Z) (rsa : bool) (swin cwin : Z) (ops : list op),
+  let s := fst (run (init sid0 rsa swin cwin) ops) in
+  let outs := snd (run (init sid0 rsa swin cwin) ops) in
+  late s = false -> (forall mb, In (OPop mb) ops -> mb <= ssMaxPacketBufferSize) ->
+  done_calls outs = b2z (completed s) /\
+  (shutdown s = false ->
+   nfLen s = 0 /\ numOut s = 0 /\ retransQ s = [] /\ queuedReset s = None /\
+   (finSent s = true \/ (resetErr s <> None /\ (cancellationFlagged s = true \/ finishedWriting s = true))) ->
+   completed s = true).
+Proof. exact sender_completion_exactly_once. Qed.
+Print Assumptions C01_completion_exactly_once.
 
 (** End to end: for every sender history and every delivery sequence drawn from the emitted frames
     (loss, duplication, reordering; reads of any sizes interleaved), the concatenation of the reads
